@@ -22,7 +22,7 @@ func VerifC10_type5_verify_exact() {
 	key, err := oprf.GenerateKey(oprf.SuiteRistretto255, rand.Reader)
 	vAssume(err == nil)
 	issuer := NewBatchedPrivateIssuer(key)
-	lo, hi := vBound("C10_field_lo", 31, 0), vBound("C10_field_hi", 33, 34)
+	lo, hi := vBound("C10_field_lo", 31, 28), vBound("C10_field_hi", 33, 34)
 	tok := tokens.Token{TokenType: vU16("type"), Nonce: vBytesC("nonce", lo, hi), Context: vBytesC("ctx", lo, hi), KeyID: vBytesC("keyid", lo, hi)}
 	server := oprf.NewVerifiableServer(oprf.SuiteRistretto255, key)
 	want, werr := server.FullEvaluate(c10Input(tok))
@@ -65,9 +65,29 @@ func VerifC10_type5_verify_binding() {
 
 	key2, err2 := oprf.GenerateKey(oprf.SuiteRistretto255, rand.Reader)
 	vAssume(err2 == nil)
+	issuer2 := NewBatchedPrivateIssuer(key2)
 	pk1, _ := key.Public().MarshalBinary()
 	pk2, _ := key2.Public().MarshalBinary()
 	vAssume(!vBytesEq(pk1, pk2))
-	vAssert(NewBatchedPrivateIssuer(key2).Verify(tok) != nil, "other-key-rejects")
+	// the two key ids may end in the same byte (the value requests carry); natively such a key is searched for
+	collide := vBool("same_truncated_key_id")
+	if vSymbolic() {
+		vAssume((issuer.TokenKeyID()[31] == issuer2.TokenKeyID()[31]) == collide)
+	} else {
+		for ctr := 0; (issuer.TokenKeyID()[31] == issuer2.TokenKeyID()[31]) != collide; ctr++ {
+			key2, err2 = oprf.DeriveKey(oprf.SuiteRistretto255, oprf.VerifiableMode, []byte{byte(ctr), byte(ctr >> 8), 9}, []byte("verif"))
+			vAssume(err2 == nil)
+			issuer2 = NewBatchedPrivateIssuer(key2)
+		}
+	}
+	vAssert(issuer.Verify(tok) == nil, "issued-token-still-verifies")
+	vAssert(issuer2.Verify(tok) != nil, "other-key-rejects")
+	// and the other issuer accepts what it issued itself
+	server2 := oprf.NewVerifiableServer(oprf.SuiteRistretto255, key2)
+	auth2, werr2 := server2.FullEvaluate(c10Input(tok))
+	vAssume(werr2 == nil)
+	tok2 := tokens.Token{TokenType: tok.TokenType, Nonce: tok.Nonce, Context: tok.Context, KeyID: tok.KeyID, Authenticator: auth2}
+	vAssert(issuer2.Verify(tok2) == nil, "other-issuer-accepts-its-own-token")
+	vAssert(issuer.Verify(tok2) != nil, "this-issuer-rejects-the-others-token")
 	vReach("binding")
 }
